@@ -122,6 +122,10 @@ type Kernel struct {
 	journal []jop
 	durable map[int]*dinode
 	sim     *simrt.Sim
+	// AfterSyscall, when set, runs on the scheduler after every system call
+	// (index, name): a harness can look at the kernel's state at every instant
+	// at which another process could
+	AfterSyscall func(n int, op string)
 	// Lost: writes dropped from write-back by failed fsyncs (see dataOp.lost)
 	Lost    []LostWrite
 	nsys    int
